@@ -95,7 +95,7 @@ def merge_oracle(ctx, u, d, case):
     return cl, deep
 
 
-def sub_merge(ctx):
+def merge_target(ctx):
     def body(u, d):
         case = {"user": u, "default": d}
         cl, deep = overlap_class(u, d)
@@ -109,7 +109,23 @@ def sub_merge(ctx):
             raise
         ctx.case(case, deep >= 2, classes=sorted(cl) + ["depth=%d" % deep])
 
-    ctx.run_given(body, trees(), trees(), max_examples=ctx.n(3000, 200000))
+    return body, (trees(), trees())
+
+
+def sub_merge(ctx):
+    body, sts = merge_target(ctx)
+    ctx.run_given(body, *sts, max_examples=ctx.n(3000, 200000))
+
+
+def fuzz_targets(ctx):
+    return {"merge": merge_target(ctx)}
+
+
+def sub_fuzz(ctx):
+    if ctx.quick or not ctx.primary:
+        return
+    import sys
+    ctx.run_fuzz(sys.modules[__name__], "merge", runs=300000, max_time=60)
 
 
 def sub_apply_default(ctx):
@@ -345,13 +361,14 @@ def sub_fields(ctx):
 
 
 def subchecks(ctx):
-    return [("merge", sub_merge), ("apply_default", sub_apply_default), ("load", sub_load), ("validate", sub_validate), ("fields", sub_fields)]
+    return [("merge", sub_merge), ("apply_default", sub_apply_default), ("load", sub_load), ("validate", sub_validate), ("fields", sub_fields),
+            ("fuzz", sub_fuzz)]
 
 
 def replay(ctx, payload):
     case = payload["case"]
     sub = payload.get("subcheck")
-    if sub == "merge":
+    if sub in ("merge", "fuzz"):
         try:
             merge_oracle(ctx, case["user"], case["default"], case)
         except PropertyViolation as v:
